@@ -464,19 +464,19 @@ def run(ctx, anchors=None, failed_step_rule=False):
 
 
 MUTANTS = [
-    dict(name="opcode_pos-not-restored", file="debugger/interpreter.cpp", find="    env.opcode_pos = env.opcode_pos_history.back();\n", replace="", expect=["R04.1:field=opcode_pos", "R04.2:restore:opcode_pos_history"]),
-    dict(name="opcount-recomputed-on-rewind", file="debugger/interpreter.cpp", find="    env.nOpCount = env.nOpCount_history.back();\n", replace="    if (env.nOpCount > 0) env.nOpCount--;\n", expect=["R04.1:restored-from-snapshot=nOpCount", "R04.2:restore:nOpCount_history"]),
+    dict(name="opcode_pos-not-restored", file="debugger/interpreter.cpp", find="\n    env.opcode_pos = env.opcode_pos_history.back();\n", replace="\n", expect=["R04.1:field=opcode_pos", "R04.2:restore:opcode_pos_history"]),
+    dict(name="opcount-recomputed-on-rewind", file="debugger/interpreter.cpp", find="\n    env.nOpCount = env.nOpCount_history.back();\n", replace="\n    if (env.nOpCount > 0) env.nOpCount--;\n", expect=["R04.1:restored-from-snapshot=nOpCount", "R04.2:restore:nOpCount_history"]),
     dict(name="empty-history-guard-removed", file="debugger/interpreter.cpp", find="    if (env.stack_history.size() == 0) {\n        printf(\"no stack history\\n\");\n        return false;\n    }\n", replace="", expect=["R04.3:RewindScript:has-refusal", "R04.3:history-read-guarded"]),
-    dict(name="drop-restore-vfExec", file="debugger/interpreter.cpp", find="    env.vfExec = env.vfExec_history.back();\n", replace="", expect=["R04.1:field=vfExec", "R04.2:restore:vfExec_history"]),
+    dict(name="drop-restore-vfExec", file="debugger/interpreter.cpp", find="\n    env.vfExec = env.vfExec_history.back();\n", replace="\n", expect=["R04.1:field=vfExec", "R04.2:restore:vfExec_history"]),
     dict(name="drop-execdata-history", file="debugger/interpreter.cpp", regex=True, find=r"        env\.execdata_history\.push_back\(env\.execdata\);\n(.*?)            env\.execdata_history\.pop_back\(\);\n(.*?)    env\.execdata = env\.execdata_history\.back\(\);\n(.*?)    env\.execdata_history\.pop_back\(\);\n",
          replace=r"\1\2\3", expect=["R04.1:field=execdata"]),
     dict(name="rewind-guard-by-history-emptiness", file="instance.cpp", find="    if (env->pc == env->script.begin()) {\n        return false;\n    }\n    if (env->done) {",
          replace="    if (env->stack_history.empty()) {\n        return false;\n    }\n    if (env->done) {", expect=["R04.4:no-rewind-across-script-switch"]),
     dict(name="drop-restore-altstack", file="debugger/interpreter.cpp",
-         find="    env.altstack = env.altstack_history.back();\n", replace="",
+         find="\n    env.altstack = env.altstack_history.back();\n", replace="\n",
          expect=["R04.1:field=altstack", "R04.2:restore:altstack_history"]),
     dict(name="cross-wire-altstack-from-stack_history", file="debugger/interpreter.cpp",
-         find="env.altstack = env.altstack_history.back();", replace="env.altstack = env.stack_history.back();",
+         find="\n    env.altstack = env.altstack_history.back();", replace="\n    env.altstack = env.stack_history.back();",
          expect=["R04.2:restore"]),
     dict(name="drop-counter-decrement", file="debugger/interpreter.cpp",
          find="    env.curr_op_seq--;\n", replace="", expect=["R04.2:counter-1-on-rewind"]),
